@@ -12,9 +12,11 @@ EXPLANATION = ("intercept_request is analysed for an arbitrary request with a pr
                "request payload assigns exactly the value taken out of the per-key buffer (leaving None) and adds "
                "Block1; a path that sets 4.13 returns Ok(true) with Block1; the splice range starts at num x size of "
                "the request's block, has length size and is fed from the request payload into the per-key buffer; the "
-               "negotiated size is a min that includes the client's size")
-NOT_DECIDED = ("Not decided: that the delivered body equals the bytes sent; in particular the 'earlier abandoned upload' "
-               "clause (a stale buffer is not reset: see DESIGN.md section 7, D10) and duplicate delivery of a final block.")
+               "negotiated size is a min that includes the client's size; C09.5: the value handed over has length splice offset + "
+               "request payload length (precise Vec::splice length model)")
+NOT_DECIDED = ("Not decided: byte-for-byte equality of the delivered body with the bytes sent (decided are: every block is "
+               "spliced at num x size from the request payload, and the delivered body is cut at offset + length of the final "
+               "block so nothing of an earlier abandoned upload stays behind it); duplicate delivery of a final block.")
 ASSUMPTIONS = ["BlockValue.size_exponent <= 7 for block values in the handler state"]
 
 
